@@ -614,7 +614,12 @@ func (c *compiler) compile(tok *token) []instruction {
 		const callName, callArguments, callReturns = 0, 1, 2
 		res = append(res, c.compileAll(tok.Tokens[callArguments].Tokens)...)
 		if slices.Contains([]string{"byte", "uint8", "int8", "int", "int32", "rune", "uint32", "uint", "int64", "uint64", "int16", "uint16", "float64", "string", "[]"}, tok.Tokens[callName].Symbol) {
-			res = append(res, instruction{Code: codeConvert, A: reg(convMap[tok.Tokens[callName].Symbol])})
+			typ := convMap[tok.Tokens[callName].Symbol]
+			if typ == TypeSlice {
+				// []T(x): the conversion is to a slice of T, not to a slice of anything
+				typ = typeFromToken(c, tok.Tokens[callName])
+			}
+			res = append(res, instruction{Code: codeConvert, A: reg(typ)})
 		} else if code := builtinMap[tok.Tokens[callName].Text]; code != 0 {
 			ellipsis := 0
 			args := tok.Tokens[callArguments].Tokens
